@@ -399,7 +399,7 @@ def run(ctx: Ctx) -> None:
         for r in c["requests"]:
             if r.get("malformed") and not HS.malformed_is_rejected(r):
                 raise RuntimeError(f"corpus request is not malformed for h11: {r}")
-    cases = [gen_case(ctx, i) for i in range(ctx.budget(500, 12000))]      # (thorough: ~13 min on this box with the 900 e2e sessions below)
+    cases = [gen_case(ctx, i) for i in range(ctx.budget(500, 11000))]      # (thorough: ~14 min on this box under load with the 850 + 240 e2e sessions below)
     for c in cases:
         for r in c["requests"]:
             if r.get("malformed"):
